@@ -23,11 +23,18 @@ def op_names(data):
 
 
 def shards(tier, quick_len=4, thorough_len=6, quick_random=350, thorough_random=6000,
-           quick_natural=120, thorough_natural=2500):  # fmt: skip
+           quick_natural=120, thorough_natural=2500, container_len=None, alias_len=None):  # fmt: skip
     n = 16
     L = quick_len if tier == "quick" else thorough_len
     out = [{"kind": "enum", "L": L, "depth": 2, "part": i, "nparts": n} for i in range(n)]
     out[0]["short"] = True
+    for name, lens in (("containers", container_len), ("aliasing", alias_len)):
+        if lens:
+            Lc = lens[0] if tier == "quick" else lens[1]
+            extra = [{"kind": "enum", "alphabet": name, "L": Lc, "depth": 2, "part": i, "nparts": n}
+                     for i in range(n)]  # fmt: skip
+            extra[0]["short"] = True
+            out += extra
     per = quick_random if tier == "quick" else thorough_random
     out += [{"kind": "random", "n": per, "idx": i} for i in range(16)]
     pern = quick_natural if tier == "quick" else thorough_natural
@@ -38,7 +45,7 @@ def shards(tier, quick_len=4, thorough_len=6, quick_random=350, thorough_random=
 def run_shard(spec, seed, judge, nt_prog, nt_bytes, focus=None, full=None):
     res = ShardResult()
     if spec["kind"] == "enum":
-        prof = focus or asm.focus_profile()
+        prof = asm.ENUM_PROFILES[spec["alphabet"]]() if spec.get("alphabet") else (focus or asm.focus_profile())
         pres = asm.prefixes(prof, spec["depth"])
         mine = pres[spec["part"] :: spec["nparts"]]
 
@@ -59,9 +66,10 @@ def run_shard(spec, seed, judge, nt_prog, nt_bytes, focus=None, full=None):
                 break
         res.extra["enumerated_programs"] = n
         res.exhaustive = True
-        res.info["exhaustive_subspace"] = (
-            f"all typed programs over the {len(prof.ops)}-op focus alphabet with <= {spec['L']} "
-            "opcodes before STOP (count in enumerated_programs)"
+        key = "exhaustive_subspace_" + spec["alphabet"] if spec.get("alphabet") else "exhaustive_subspace"
+        res.info[key] = (
+            f"all typed programs over the {len(prof.ops)}-op {spec.get('alphabet', 'focus')} alphabet "
+            f"with <= {spec['L']} opcodes before STOP (count in enumerated_programs)"
         )
     elif spec["kind"] == "random":
         prof = full or asm.full_profile(vocab.ASM_GLOBS)
